@@ -177,5 +177,75 @@ class PkgConfigRun(Bounded):
             shutil.rmtree(top, ignore_errors=True)
 
 
+class PkgConfigLibraryModes(Bounded):
+    """An auto-filled package of a project whose library is declared with library(): under every library mode
+    (shared only, static only, both) the real pkg-config hands a consumer the library, in the installed and the
+    uninstalled form, and a consumer links against the built project with the flags of the uninstalled form."""
+    target = 'bfg9000/builtins/pkg_config.py::finalize_pkg_config'
+    properties = ('C17',)
+    reason = 'whole configure pipeline plus the external pkg-config, make and cc: runtime contract with the real tools'
+    native_chunk = 1
+    MODES = {'shared-only': [], 'static-only': ['--disable-shared', '--enable-static'], 'both': ['--enable-shared', '--enable-static']}
+
+    def native_inputs(self, case, alphabet, maxlen, rng, extra=0):
+        for m in self.MODES:
+            yield {'mode': m}
+
+    def native_check(self, case, raw):
+        import shutil, subprocess, tempfile
+        from pyvc.interp import REPO
+        top = tempfile.mkdtemp(prefix='pyvc_pcm_')
+        try:
+            src, b = top + '/src', top + '/b'
+
+            def w(fp, text):
+                os.makedirs(os.path.dirname(fp), exist_ok=True)
+                with open(fp, 'w') as f:
+                    f.write(text)
+            w(src + '/build.bfg', "project('hello', version='1.0')\ninc = header_directory('include', include='*.h')\n"
+                                  "lib = library('hello', files=['h.c'], includes=[inc])\ninstall(lib, inc)\npkg_config(auto_fill=True)\n")
+            w(src + '/include/hello.h', 'int hello(void);\n')
+            w(src + '/h.c', '#include "hello.h"\nint hello(void) { return 0; }\n')
+            w(top + '/use.c', '#include <hello.h>\nint main(void) { return hello(); }\n')
+            for name, mod in (('bfg9000', 'bfg9000.driver'), ('bfg9000-depfixer', 'bfg9000.depfixer')):
+                lp = top + '/bin/' + name
+                w(lp, "#!/bin/sh\nPYTHONPATH=%s exec /venv/bin/python -c 'import sys; sys.argv[0] = \"%s\"; "
+                      "from %s import main; sys.exit(main())' \"$@\"\n" % (REPO, lp, mod))
+                os.chmod(lp, 0o755)
+            env = dict(os.environ, PATH=top + '/bin:/venv/bin:' + os.environ['PATH'])
+            for k in ('MAKEFLAGS', 'PKG_CONFIG_PATH', 'LD_LIBRARY_PATH'):
+                env.pop(k, None)
+            r = subprocess.run([top + '/bin/bfg9000', 'configure-into', src, b, '--backend=make', '--no-resolve-packages',
+                                '--prefix=/opt/hello'] + self.MODES[raw['mode']], env=env, capture_output=True, text=True, timeout=120)
+            if r.returncode != 0:
+                return self.fail(case, raw, 'configure_succeeds', stderr=r.stderr[-500:])
+            for form in ('installed', 'uninstalled'):
+                e2 = dict(env, PKG_CONFIG_PATH=b + '/pkgconfig')
+                if form == 'installed':
+                    e2['PKG_CONFIG_DISABLE_UNINSTALLED'] = '1'
+                for static in ([], ['--static']):
+                    p = subprocess.run(['pkg-config', '--libs'] + static + ['hello'], env=e2, capture_output=True, text=True, timeout=30)
+                    toks = shlex.split(p.stdout)
+                    wantdir = '/opt/hello/lib' if form == 'installed' else b
+                    if p.returncode != 0 or '-lhello' not in toks or not any(
+                            t[:2] == '-L' and os.path.normpath(t[2:]) == wantdir for t in toks):
+                        return self.fail(case, raw, 'consumers_get_the_library', form=form, static=bool(static), got=p.stdout.strip(),
+                                         stderr=p.stderr[:200])
+            m = subprocess.run(['make', '-C', b], env=env, capture_output=True, text=True, timeout=300)
+            if m.returncode != 0:
+                return self.fail(case, raw, 'project_builds', output=(m.stdout + m.stderr)[-400:])
+            e2 = dict(env, PKG_CONFIG_PATH=b + '/pkgconfig')
+            fl = subprocess.run(['pkg-config', '--cflags', '--libs', 'hello'], env=e2, capture_output=True, text=True, timeout=30)
+            c = subprocess.run(['cc', top + '/use.c', '-o', top + '/use'] + shlex.split(fl.stdout), env=env, capture_output=True, text=True, timeout=120)
+            if c.returncode != 0:
+                return self.fail(case, raw, 'consumer_builds_against_the_project', flags=fl.stdout.strip(), output=c.stderr[-400:])
+            rr = subprocess.run([top + '/use'], env=dict(env, LD_LIBRARY_PATH=b), capture_output=True, timeout=30)
+            if rr.returncode != 0:
+                return self.fail(case, raw, 'consumer_runs', exit=rr.returncode)
+            return True
+        finally:
+            shutil.rmtree(top, ignore_errors=True)
+
+
 def registry():
-    return [PkgConfigRun()]
+    return [PkgConfigRun(), PkgConfigLibraryModes()]
